@@ -521,9 +521,9 @@ func (m *Model) Predict(c Cmd) Pred {
 	case "new_epic":
 		return m.predictNew(c, true)
 	case "new_task":
-		return m.predictNew(c, false)
+		return m.predictNew(c, false).weakenIfWaitCycle()
 	case "set":
-		return m.predictSet(c)
+		return m.predictSet(c).weakenIfWaitCycle()
 	case "claim_id":
 		id := m.Resolve(c.ID)
 		if c.Agent == "" {
@@ -613,7 +613,7 @@ func (m *Model) Predict(c Cmd) Pred {
 			}
 			n.Items[from].Deps[to] = true
 		}
-		return Pred{Class: class, Prop: "C07", Why: why, Alts: []*Model{n}}
+		return Pred{Class: class, Prop: "C07", Why: why, Alts: []*Model{n}}.weakenIfWaitCycle()
 	case "sequence_rm":
 		if len(c.IDs) != 2 {
 			return fail("C10", "usage: sequence rm needs exactly two ids")
@@ -1108,4 +1108,49 @@ func (m *Model) StateKey() string {
 	}
 	sort.Strings(parts)
 	return strings.Join(parts, "|") + fmt.Sprintf("|p%d", len(m.Pruned))
+}
+
+// WaitCycle: does the structural waits-for relation (own dependencies plus
+// those inherited through the epic's dependencies) contain a cycle? C15 says
+// ergo never lets callers build one; which request gets refused is not
+// specified, so a request whose documented effect would close such a cycle may
+// be refused or (if accepted) is caught by C15's progress oracles.
+func (m *Model) WaitCycle() bool {
+	deps := map[string][]string{}
+	for _, t := range m.Tasks() {
+		n := "t:" + t.ID
+		for d := range t.Deps {
+			if o := m.Items[d]; o != nil && !o.IsEpic {
+				deps[n] = append(deps[n], "t:"+d)
+			}
+		}
+		if e := m.Items[t.Epic]; t.Epic != "" && e != nil && e.IsEpic {
+			deps[n] = append(deps[n], "in:"+t.Epic)
+			deps["out:"+t.Epic] = append(deps["out:"+t.Epic], n)
+		}
+	}
+	for _, e := range m.Epics() {
+		for d := range e.Deps {
+			if o := m.Items[d]; o != nil && o.IsEpic {
+				deps["in:"+e.ID] = append(deps["in:"+e.ID], "out:"+d)
+			}
+		}
+	}
+	return findCycle(deps) != nil
+}
+
+func (p Pred) weakenIfWaitCycle() Pred {
+	if p.Class == MustFail {
+		return p
+	}
+	for _, a := range p.Alts {
+		if a.WaitCycle() {
+			p.Class = Either
+			if p.Why == "" {
+				p.Why = "the request would close a cycle in the effective waits-for relation (through epic dependencies)"
+			}
+			return p
+		}
+	}
+	return p
 }
